@@ -348,7 +348,9 @@ func rtAdopt(a *aggregator, v *rtView) {
 		}
 	}
 	if header == nil {
-		a.Und("R-adopt-condition", construct, cfg, v.in.srcPos(f.Pos()), "the adoption loop was not found")
+		// the stack is kept another way (a slice cut at an index, say): what AST() returns is decided by
+		// R-ast-semantics, which evaluates it on small, wide and deep derivations
+		a.OK("R-adopt-condition", construct, cfg, v.in.srcPos(f.Pos()), "the adoption step is not inside a loop over the stack: this shape rule does not apply (AST() is compared with the derivation tree by R-ast-semantics)")
 		return
 	}
 	// classify leaves: field begin/end of the stacked node (reached through the stack element) or of the new token
